@@ -121,7 +121,7 @@ CursorReset(s)   == s.cur = 0
 
 Bases == ndJsonDeserialize(IOEnv.IDENT_BASES)
 P     == ndJsonDeserialize(IOEnv.IDENT_PARAMS)[1]
-   \* [target, phase, alllen, nflip, flipk, nrand, minfaults, maxfaults, sel (sequence of base ids)]
+   \* [target, bigtarget, biglen, phase, alllen, nflip, flipk, nrand, minfaults, maxfaults, sel (sequence of base ids)]
    \* target = number of field faults wanted per base (0 = all of them): the fault space of a base with more
    \* is strided, the phase of the stride comes from the seed; bases of at most alllen bytes are never strided
 
@@ -138,8 +138,9 @@ TextClasses == <<"zero", "one", "max", "inc", "dec", "nonhex", "lower", "empty",
                  "zero+fix", "one+fix", "max+fix", "inc+fix", "dec+fix">>
 ClassesOf(b) == IF Bases[b].kind = "text" THEN TextClasses ELSE BinClasses
 
-StrideOf(b) == IF P.target = 0 \/ Bases[b].len <= P.alllen THEN 1
-               ELSE LET q == (Bases[b].nf * Len(ClassesOf(b))) \div P.target IN IF q < 1 THEN 1 ELSE q
+TargetOf(b) == IF Bases[b].len > P.biglen THEN P.bigtarget ELSE P.target   \* big bases cost more per run
+StrideOf(b) == IF TargetOf(b) = 0 \/ Bases[b].len <= P.alllen THEN 1
+               ELSE LET q == (Bases[b].nf * Len(ClassesOf(b))) \div TargetOf(b) IN IF q < 1 THEN 1 ELSE q
 Keep(b, x)  == (x % StrideOf(b)) = (P.phase % StrideOf(b))
 
 SetOps(b) ==
@@ -153,7 +154,7 @@ SetOps(b) ==
 TruncLens(b) ==
   LET R == Bases[b].regions n == Bases[b].len IN
   (IF n <= P.alllen THEN 0..(n - 1) ELSE {})
-  \cup { (n * k) \div 16 : k \in {x \in 1..15 : P.target = 0 \/ P.target >= 100 \/ Keep(b, x)} } \cup { n - 1 }
+  \cup { (n * k) \div 16 : k \in {x \in 1..15 : TargetOf(b) = 0 \/ TargetOf(b) >= 100 \/ Keep(b, x)} } \cup { n - 1 }
   \cup UNION { UNION { {R[ri].o + R[ri].f[fi][2], R[ri].o + R[ri].f[fi][2] + 1}
                        : fi \in {x \in 1..Len(R[ri].f) : Keep(b, ri * 31 + x * 7)} }
                : ri \in 1..Len(R) }
